@@ -66,6 +66,10 @@ Fixpoint drop_while {A} (p : A -> bool) (l : list A) : list A :=
   end.
 
 Definition trim_start (p : byte -> bool) (l : bytes) : bytes := drop_while p l.
+(* linear-time reversal (List.rev extracts to a quadratic function: a 64 KiB line would take minutes) *)
+Definition frev {A : Type} (l : list A) : list A := rev_append l [].
+Lemma frev_eq {A : Type} (l : list A) : frev l = rev l.
+Proof. unfold frev. symmetry. apply rev_alt. Qed.
 Definition trim_end (p : byte -> bool) (l : bytes) : bytes := rev (drop_while p (rev l)).
 Definition trim_both (p : byte -> bool) (l : bytes) : bytes := trim_end p (trim_start p l).
 
